@@ -1,7 +1,7 @@
 (* Property C10: a nested scheduler behaves as one job; nesting is transparent.
    Only property theorems here. Model R, level 0. *)
 From AJ Require Import Common.Util Run.RModel Run.RFacts Run.RFacts2 Run.RInv Run.RInv4 Run.RInv5 Run.RMon Run.RProps1
-  Run.RProps2 Run.RProps3 Props.RExample Run.RWin Run.RProps4 Run.RShut1 Run.RShut2 Run.RTime Run.RFlat Run.RInvP Run.RExc Run.RSchedDef Run.RFlatten.
+  Run.RProps2 Run.RProps3 Props.RExample Run.RWin Run.RProps4 Run.RShut1 Run.RShut2 Run.RTime Run.RFlat Run.RInvP Run.RExc Run.RSchedDef Run.RFlatten Run.RSolve Run.RSched Run.RSchedTop.
 
 (* (a) interface.  A nested scheduler starts (EBegin) under the very rule of an atomic job: all its
    requirements done, its parent's main loop running, a free slot in the parent's window (level
@@ -142,6 +142,37 @@ Theorem C10_solver_sound : forall c lS lE, solve c = (lS, lE) -> is_scheduleb c 
   is_schedule c (tab lS) (tab lE).
 Proof. exact solve_sound. Qed.
 Print Assumptions C10_solver_sound.
+
+Theorem C10_solver_complete : forall c, wf c = true ->
+  let '(lS, lE) := solve c in is_scheduleb c lS lE = true.
+Proof. exact solve_complete. Qed.
+Print Assumptions C10_solver_complete.
+
+(* every execution of a tree without window, timeout or forever job follows the schedule, for as long
+   as no critical job has raised ([calm]): job x is not started before S x, runs (with deadline E x)
+   between S x and E x, is done after E x, and is never cancelled *)
+Theorem C10_runs_on_schedule : forall c S E h s, wf c = true -> plain c = true -> is_schedule c S E ->
+  Reach 3 c h s -> calm c E s -> forall x, x < njobs c -> x <> 0 -> on_schedule c S E s x.
+Proof. exact runs_on_schedule. Qed.
+Print Assumptions C10_runs_on_schedule.
+
+(* the last sentence of the property: nested tree and flattened graph run every job at the same
+   instants (Sof, Eof: the schedule computed by the solver) *)
+Theorem C10_nested_and_flattened_run_alike : forall c c' f, wf c = true -> wf c' = true ->
+  plain c = true -> plain c' = true -> flat_ofb c c' f = true ->
+  (forall x, atomic_id c x = true ->
+     Sof c' (fname f x) = Sof c x /\ Eof c' (fname f x) = Eof c x) /\
+  (forall h s, Reach 3 c h s -> calm c (Eof c) s ->
+     forall x, x < njobs c -> x <> 0 -> on_schedule c (Sof c) (Eof c) s x) /\
+  (forall h s, Reach 3 c' h s -> calm c' (Eof c') s ->
+     forall k, k < njobs c' -> k <> 0 -> on_schedule c' (Sof c') (Eof c') s k).
+Proof. exact nested_and_flattened_run_alike. Qed.
+Print Assumptions C10_nested_and_flattened_run_alike.
+
+(* NOT PROVED here: what happens from the instant at which a critical job raises (both runs abort
+   in that instant -- C05 -- but which of the jobs that tie with the abort still start or end is
+   decided by the order of callbacks, which nesting legitimately changes), and trees with a
+   window, a timeout or forever jobs, which the sentence excludes. *)
 
 (* non-vacuity of (f): a nested tree (critical nested scheduler 1 = {2; 3 requires 2}, job 4
    requires 1) and its flattened graph: the relation holds, both have a schedule, same instants *)
